@@ -75,7 +75,8 @@ Qed.
 
 Lemma tied_do_act : forall r a, tied r -> tied (do_act sc dec0 [] r a).
 Proof.
-  intros r a T. destruct a; cbn [do_act]; try exact T; try (apply tied_peer_send; exact T).
+  intros r a T. destruct a; cbn [do_act]; try exact T; try (apply tied_peer_send; exact T);
+    try (apply tied_peer_send; destruct y; exact T).
   match goal with |- tied (let '(r1, evs) := ?X in _) => destruct X as [r1 evs] eqn:E end.
   apply tied_react. eapply tied_exec; [|exact E]. exact T.
 Qed.
